@@ -5,7 +5,7 @@ import sys
 
 from . import common as C
 from . import fmtgen as G
-from . import c08, c10, c11, c14
+from . import c08, c09, c10, c11, c12, c14
 
 sys.path.insert(0, os.path.join(C.VERIF, "tools"))
 import gen_tables  # noqa: E402
@@ -54,8 +54,24 @@ def gen_inputs(rng, n_random, inproc):
     ans = C.drive(inproc, [f"case snake {C.hexs(n)}" for n in names])
     table = {n: C.unhex(a) for n, a in zip(names, ans)}
     for _ in range(n_random):
-        k = rng.below(8)
-        if k == 0:
+        k = rng.below(11)
+        if k == 8:
+            # Error: the attribute x name x type grid of C09, struct or enum variant, with an item-level attribute at times
+            d = "Error"
+            named = rng.chance(1, 2)
+            nf = rng.below(4)
+            names = tuple(rng.sample(c09.NAMES, nf)) if named else tuple(("o", f"_{i}") for i in range(nf))
+            fs = tuple((rng.choice(c09.ATTRS), rng.choice(c09.TYPES)) for _ in range(nf))
+            src = c09.src_and_req(named, names, fs, rng.chance(1, 2), rng.choice(["", "", "#[error(ignore)] ", "#[error(forward)] "]))[0]
+        elif k == 9:
+            d = "TryFrom"
+            e = c12.gen_enum(rng)
+            src = c12.enum_src(e, c12.repr_attrs_for(rng, e["repr"])[0])
+        elif k == 10:
+            d = "FromStr"
+            vs = rng.sample(["Foo", "foo", "FOO", "Bar", "r#type", "Baz", "baz", "Qux"], 1 + rng.below(5))
+            src = rng.choice(["enum E { " + ", ".join(vs) + " }", "struct S(u8);", "struct S { a: u16 }", "enum E { A(u8), B }", "struct U;"])
+        elif k == 0:
             d = rng.choice(["IsVariant", "Unwrap", "TryUnwrap", "TryInto", "TryInto"])
             src, _ = c11.gen_enum(rng, d, lambda x: table[x])
         elif k == 1:
